@@ -217,10 +217,20 @@ SPEC int forall_rel(ns_t a, uint32_t rel, const ITV_T *x) {
 
 #if defined(VERIF_CBMC)
 _Bool FN_OK(const ITV_T *x);
+#ifndef ALIAS_VARIANT
 #define CONTRACT_ITV1(OP) uint32_t FN_##OP(ITV_T *to, const ITV_T *x) \
   PRE(wf_x, WF(x)) ASSIGNS(*to) C_##OP##_POSTS(RET, to, x, x);
 #define CONTRACT_ITV2(OP) uint32_t FN_##OP(ITV_T *to, const ITV_T *x, const ITV_T *y) \
   PRE(wf_x, WF(x)) PRE(wf_y, WF(y)) ASSIGNS(*to) C_##OP##_POSTS(RET, to, x, y);
+#else
+/* aliased-argument variant (check C13): the operands may be the receiver itself; the same clauses are
+   stated against the ENTRY values of the operands, which the harness keeps in the ghost copies G_x0, G_y0 */
+extern ITV_T G_x0, G_y0;
+#define CONTRACT_ITV1(OP) uint32_t FN_##OP(ITV_T *to, const ITV_T *x) \
+  PRE(wf_x, WF(&G_x0)) ASSIGNS(*to) C_##OP##_POSTS(RET, to, (&G_x0), (&G_x0));
+#define CONTRACT_ITV2(OP) uint32_t FN_##OP(ITV_T *to, const ITV_T *x, const ITV_T *y) \
+  PRE(wf_x, WF(&G_x0)) PRE(wf_y, WF(&G_y0)) ASSIGNS(*to) C_##OP##_POSTS(RET, to, (&G_x0), (&G_y0));
+#endif
 #ifdef FN_neg
 CONTRACT_ITV1(neg)
 #endif
